@@ -49,9 +49,13 @@ Definition decimal (z : Z) : list Z := digits_go (S (Z.to_nat z)) z [].
 Definition shard_dir (num : Z) : list Z :=
   let d := decimal num in repeat 48 (Z.to_nat shard_dir_width - length d) ++ d.
 
-(* size limit handed to each of the `shards` shards when the caller gave `given` (None: the default) *)
+(* the share of each of the `shards` shards when the caller gave `given` (None: the default total) *)
 Definition shard_limit (given : option Z) (shards : Z) : Q :=
   shard_size_limit (match given with Some l => l | None => default_size_limit end) shards.
+(* what a shard is handed by FanoutCache.__init__: its share under the generated condition, otherwise nothing (None: the
+   shard keeps the limit stored in it).  `shard_exists`: the shard's database file is there before the open. *)
+Definition shard_limit_handed (given : option Z) (shard_exists : bool) (shards : Z) : option Q :=
+  if shard_limit_passed (is_some given) shard_exists then Some (shard_limit given shards) else None.
 
 (* ------------------------------------------------------------------------------------------------ *)
 (* 2. the abstract single cache *)
